@@ -16,6 +16,7 @@ import pickle
 import random
 
 from vmc import vctx, vos, sched as vs, explore, par, report, vthreading
+from vmc import linepoints
 from queue import Empty, Full
 
 import billiard.queues as bq
@@ -42,6 +43,19 @@ BIG = bytes(range(256)) * (BIGLEN // 256)
 P_PID, C_PID, J_PID, PROBE_PID = 5000, 5100, 5200, 5300
 
 _CUR = None                   # the Env of the execution in progress
+_LINE_CODES = None            # code objects preempted at line level
+
+
+def _line_codes():
+    """Configurations with several threads of ONE process sharing ONE queue
+    object race on plain attributes (``_thread``, ``_buffer``): there every
+    source line of put() / _start_thread() is a scheduling point."""
+    global _LINE_CODES
+    if _LINE_CODES is None:
+        _LINE_CODES = linepoints.codes_of(
+            bq.Queue.put, bq.Queue._start_thread, bq.JoinableQueue.put,
+            bq.Queue.get, bq.JoinableQueue.task_done)
+    return _LINE_CODES
 
 
 def payload(p, i, big):
@@ -106,6 +120,7 @@ class Env:
         self.big = {}
         self.tickets = 0
         self.nput_ok = 0
+        self.prod_left = 0        # producer threads of a shared object
 
     def ev(self, *a):
         self.log.append(a + (self.sched.now,))
@@ -139,14 +154,25 @@ def run(cfg, prefix):
                 q = CTX.SimpleQueue()
             rbuf = vos._end(q._reader.fileno()).rbuf
             orig = cfg.get('orig')
+            pthreads, cthreads = cfg.get('pthreads'), cfg.get('cthreads')
+            if pthreads or cthreads:
+                linepoints.enable(_line_codes())
+                sched.linepoints = True
+            shared = {}
 
             def copy(role, pid):
-                if role == orig:
-                    c = q
+                # threads of one process share one object (no clone): the
+                # producers share the original, the consumers one copy
+                if (pthreads and role[0] == 'p') or role == orig:
+                    c, pid = q, vos.MAIN_PID
+                elif cthreads and role[0] == 'c':
+                    if 'c' not in shared:
+                        shared['c'] = vctx.clone(q, C_PID)
+                    c, pid = shared['c'], C_PID
                 else:
                     c = vctx.clone(q, pid)
                 env.copies.append(c)
-                return c, (vos.MAIN_PID if role == orig else pid)
+                return c, pid
             env.copies.append(q)
             roles = []
             for p, (op, n, big) in enumerate(prods):
@@ -156,6 +182,7 @@ def run(cfg, prefix):
                 roles.append(('P%d' % p, pid, _producer(env, p, c, op, n, big,
                                                         kind)))
             env.tickets = sum(n for _, n, _ in prods)
+            env.prod_left = len(prods) if pthreads else 0
             for j, op in enumerate(cons):
                 c, pid = copy('c%d' % j, C_PID + j)
                 roles.append(('C%d' % j, pid, _consumer(env, j, c, op, kind,
@@ -178,6 +205,8 @@ def run(cfg, prefix):
             decisions = env.choices.decisions
     finally:
         _CUR = None
+        if cfg.get('pthreads') or cfg.get('cthreads'):
+            linepoints.disable()
         # Connection.__del__ would os.close() a virtual fd at some later,
         # garbage-collector chosen moment: forget the handles now
         for c in env.copies:
@@ -217,6 +246,12 @@ def _producer(env, p, q, op, n, big, kind):
                 env.nput_ok += 1
                 env.ev('put_ok', p, i)
                 break
+        if env.prod_left:
+            # a thread of a multi-threaded producer process: the thread that
+            # finishes last performs the process exit
+            env.prod_left -= 1
+            if env.prod_left:
+                return 'ok'
         if kind != 'simple':
             # clean process exit: what util._exit_function does through the
             # queue's finalizers, then the parent outlives its feeder thread
@@ -602,6 +637,22 @@ def base_configs(tier):
                     prods=[_P('put', 2), _P('nb' if maxsize else 'put', 1),
                            _P('put', 1, 0)],
                     cons=gops, orig='p0')
+    # ---- threads of ONE process sharing ONE queue object (no clone), their
+    #      first puts race; line-level preemption inside put/_start_thread/get
+    for kind in ('queue', 'joinable'):
+        for maxsize in (0, 1, 2):
+            add(kind=kind, maxsize=maxsize, prods=[_P('put', 1), _P('put', 1)],
+                cons=['get'], pthreads=True)
+        add(kind=kind, maxsize=1, prods=[_P('nb', 1), _P('to', 1)],
+            cons=['to'], pthreads=True)
+        add(kind=kind, maxsize=0, prods=[_P('put', 2), _P('put', 1)],
+            cons=['get', 'get'], pthreads=True, cthreads=True)
+        add(kind=kind, maxsize=2, prods=[_P('put', 2)],
+            cons=['get', 'nw'], orig='p0', cthreads=True)
+    add(kind='joinable', maxsize=0, prods=[_P('put', 1), _P('put', 1)],
+        cons=['get'], pthreads=True, join='any')
+    add(kind='simple', prods=[_P('put', 1), _P('put', 1)],
+        cons=['get', 'get'], pthreads=True, cthreads=True)
     # ---- short reads as deviations
     for gop in ('get', 'to', 'nw'):
         add(kind='queue', maxsize=1, prods=[_P('put', 2)], cons=[gop],
@@ -655,8 +706,10 @@ def base_configs(tier):
 
 def _nvt(cfg):
     """vthreads of a configuration (feeder threads included)."""
-    return len(cfg['prods']) * (1 if cfg['kind'] == 'simple' else 2) + \
-        len(cfg['cons']) + (1 if cfg.get('join') else 0)
+    feeders = 0 if cfg['kind'] == 'simple' else (
+        1 if cfg.get('pthreads') else len(cfg['prods']))
+    return len(cfg['prods']) + feeders + len(cfg['cons']) + \
+        (1 if cfg.get('join') else 0)
 
 
 def _items(cfg):
@@ -788,7 +841,11 @@ def main(tier, seed, only=None):
         'C13',
         'granularity: every semaphore, pipe, thread-lock, condition and '
         'thread operation is a scheduling point; plain attribute accesses '
-        'of the per-process queue object (deque append/popleft) are atomic',
+        'of the per-process queue object (deque append/popleft) are atomic; '
+        'in the configurations where several threads of one process share '
+        'one queue object (pthreads / cthreads) every source line of '
+        'Queue.put, _start_thread, get, JoinableQueue.put, task_done is a '
+        'scheduling point as well (sys.monitoring LINE events)',
         'a producer process exits cleanly (close(), join_thread()) and the '
         'creating process outlives its feeder thread',
         'cost model P = preemptions + deviations (timer lands first, short '
